@@ -213,12 +213,102 @@ let step_conc f o out =
     if s0.R.s_doc <> init_root || slog <> obs_log then out := "BAD\tside=impl\tclause=calls_exactly_once" :: !out;
     if not (linearizable sstep (fun st -> st.R.s_doc) s0 ths final_root) then out := "BAD\tside=impl\tclause=not_linearizable" :: !out
 
+(* ---- concurrent histories, several rounds per case (rounds= field) ----
+   Besides requests the threads may contain (a) merge_at operations and (b) register_function
+   operations at pointers that already hold a callable after the setup.  Both are judged like
+   requests, by the search for a sequential order of the extracted model / specification:
+   the statement says "For every sequence of registrations, merges, reads, writes and calls the
+   registry answers as a plain JSON document plus a set of callables would" and "concurrent
+   requests are serialised: every outcome equals some sequential order".  With the SET of callable
+   pointers fixed, a write request's decision "is this pointer a callable?" does not depend on
+   where a re-registration falls, so every operation here has one place in the order.
+   Per operation the calls it made are observed ("a callable is invoked exactly once, with the
+   supplied body, only for a non-empty body at exactly its escape-normalised pointer"): the order
+   must also explain WHICH callable each call ran, in particular "a call that starts after
+   register_function returned runs the new callable" (real-time order).
+   The memo key is the whole state (document and callable table). *)
+type copl = { op' : R.rop; s' : int; e' : int; out' : R.oout; lg' : (BinNums.coq_N * Json.json) list }
+
+let linearizable_full (type st) (step : st -> R.rop -> (st * R.oout) * (BinNums.coq_N * Json.json) list)
+    (root_of : st -> Json.json) (init : st) (ths : copl array array) (final_root : Json.json) : bool =
+  let n = Array.length ths in
+  let seen = Hashtbl.create 1024 in
+  let rec go (pos : int list) (st : st) : bool =
+    let posa = Array.of_list pos in
+    if Array.for_all (fun x -> x) (Array.mapi (fun t p -> p >= Array.length ths.(t)) posa) then root_of st = final_root
+    else begin
+      let key = (pos, st) in
+      if Hashtbl.mem seen key then false else begin
+        Hashtbl.add seen key ();
+        let ok = ref false in
+        for t = 0 to n - 1 do
+          if not !ok && posa.(t) < Array.length ths.(t) then begin
+            let a = ths.(t).(posa.(t)) in
+            let minimal = ref true in
+            for u = 0 to n - 1 do
+              if u <> t && posa.(u) < Array.length ths.(u) && ths.(u).(posa.(u)).e' < a.s' then minimal := false
+            done;
+            if !minimal then begin
+              let ((st', o), lg) = step st a.op' in
+              if o = a.out' && lg = a.lg' then
+                ok := go (L.mapi (fun i p -> if i = t then p + 1 else p) pos) st'
+            end
+          end
+        done;
+        !ok
+      end
+    end in
+  go (L.init n (fun _ -> 0)) init
+
+let step_conc_rounds f o out =
+  let setup = parse_ops (get f "setup") in
+  let prefix = match get_opt f "pre" with None | Some "none" -> None | Some p -> Some (bytes_of_hex p) in
+  let thops = L.map parse_ops (split_on '!' (get f "th")) in
+  match get_opt o "crash" with
+  | Some cr -> out := ("BAD\tside=impl\tclause=crash:" ^ cr ^ " (a request did not return)") :: !out
+  | None ->
+    let m0 = L.fold_left (fun st op -> let ((st', _), _) = R.rstep prefix st op in st') R.rstate0 setup in
+    let s0 = L.fold_left (fun st op -> let ((st', _), _) = R.sstep prefix st op in st') R.sstate0 setup in
+    (* well-formedness of the case: what may run concurrently *)
+    L.iter (fun ops -> L.iter (fun op ->
+        match op with
+        | R.ReadValue _ | R.Dispatch _ | R.Route _ | R.MergeAt _ -> ()
+        | R.RegFun (p, _) -> if not (L.mem_assoc p m0.R.r_funs) then failwith "concurrent registration at a pointer that holds no callable"
+        | _ -> failwith "operation not allowed in a concurrent history") ops) thops;
+    let init_root = json_of (get o "init") in
+    if m0.R.r_root <> init_root then out := "DIFF\tfields=init" :: !out;
+    if s0.R.s_doc <> init_root then out := "BAD\tside=impl\tclause=setup_document" :: !out;
+    let ress = split_on '@' (get o "res") and roots = split_on '@' (get o "root") in
+    let nr = int_of_string ("0x" ^ get f "rounds") in
+    let logs = if get o "log" = "-" then L.init nr (fun _ -> "-") else split_on '@' (get o "log") in
+    if L.length ress <> nr || L.length roots <> nr || L.length logs <> nr then failwith "round count";
+    let reported = ref false in
+    L.iteri (fun r (rs, (root, lg)) ->
+        if not !reported then begin
+          let res = L.map (fun t -> if t = "-" then [] else L.map (fun x ->
+              match split_on '.' x with
+              | [s; e; o; l] -> (int_of_string ("0x" ^ s), int_of_string ("0x" ^ e), parse_out o, parse_log l)
+              | _ -> failwith "bad result") (split_on ';' t)) (split_on '!' rs) in
+          if L.length res <> L.length thops then failwith "thread count";
+          let ths = Array.of_list (L.map2 (fun ops rs ->
+              if L.length ops <> L.length rs then failwith "op count";
+              Array.of_list (L.map2 (fun op (s, e, o, l) -> { op' = op; s' = s; e' = e; out' = o; lg' = l }) ops rs)) thops res) in
+          let final_root = json_of root in
+          (* the calls seen by the callables are the calls attributed to the operations *)
+          let per_op = L.sort compare (L.concat_map (fun t -> L.concat_map (fun (_, _, _, l) -> l) t) res) in
+          if per_op <> L.sort compare (parse_log lg) then failwith "call log and per-operation logs differ";
+          if not (linearizable_full (fun st op -> let ((st', r), lg) = R.rstep prefix st op in ((st', R.obs_out r), lg)) (fun st -> st.R.r_root) m0 ths final_root) then begin
+            reported := true; out := (Printf.sprintf "DIFF\tfields=no_sequential_order(model):round%d" r) :: !out end;
+          if not (linearizable_full (R.sstep prefix) (fun st -> st.R.s_doc) s0 ths final_root) then begin
+            reported := true; out := (Printf.sprintf "BAD\tside=impl\tclause=not_linearizable:round%d" r) :: !out end
+        end) (L.combine ress (L.combine roots logs))
+
 let step _ cs os =
   let f = fields cs and o = fields os in
   let out = ref [] in
   (match get f "k" with
    | "seq" -> step_seq f o out
-   | "conc" -> step_conc f o out
+   | "conc" -> if get_opt f "rounds" <> None then step_conc_rounds f o out else step_conc f o out
    | k -> failwith ("bad kind " ^ k));
   !out
 
